@@ -115,7 +115,28 @@ func setCfg(a opArgs) func() {
 			}
 		}
 	}
-	return func() { spg.MaxTrials, spg.MaxFailRate = oldT, oldF }
+	instT, instF := spg.MaxTrials, spg.MaxFailRate
+	return func() {
+		// MaxTrials and MaxFailRate are the caller's configuration: the library reads them
+		if spg.MaxTrials != instT || spg.MaxFailRate != instF {
+			budgetMutated = fmt.Sprintf(" MUTATED=package-budget(MaxTrials=%d,MaxFailRate=%g;installed=%d,%g)", spg.MaxTrials, spg.MaxFailRate, instT, instF)
+		}
+		spg.MaxTrials, spg.MaxFailRate = oldT, oldF
+	}
+}
+
+// set by setCfg's restore when an operation left the package's budget variables changed
+var budgetMutated string
+
+// exec runs one operation; the budget check of setCfg is appended to its answer.
+func (e *executor) exec(line, lean string) string {
+	budgetMutated = ""
+	out := e.exec1(line, lean)
+	if budgetMutated != "" {
+		out += budgetMutated
+		budgetMutated = ""
+	}
+	return out
 }
 
 var entropyWarnRE = regexp.MustCompile(`^entropySimple: There must be a positive number of elements\. Not -?\d+$`)
@@ -171,6 +192,66 @@ func withReader(s *scripted, f func()) (ro runOut) {
 	}()
 	f()
 	return
+}
+
+func planOf(s string) []resp {
+	var plan []resp
+	for _, f := range strings.Split(s, ",") {
+		p := strings.Split(f, ":")
+		if len(p) == 2 {
+			g, _ := strconv.Atoi(p[0])
+			plan = append(plan, resp{g, p[1] == "1"})
+		}
+	}
+	return plan
+}
+
+// sourceSpec: the bounded draw over a scripted reader, computed independently of the library and
+// of the Lean model: words are 4 bytes big-endian read in full (io.ReadFull semantics: an error is
+// fatal only if the word is still incomplete), words at or above the largest multiple of n are
+// rejected. ok=false when the reader fails or runs dry before a word is accepted.
+func sourceSpec(n uint64, bytes []byte, plan []resp) (k uint64, used int, ok bool) {
+	if n == 0 || n > 1<<32-1 {
+		return 0, 0, false
+	}
+	pos := 0
+	for iter := 0; iter < 100000; iter++ {
+		var w [4]byte
+		got := 0
+		for got < 4 {
+			r := resp{give: 4 - got}
+			if len(plan) > 0 {
+				r = plan[0]
+				plan = plan[1:]
+			}
+			kk := r.give
+			if kk > 4-got {
+				kk = 4 - got
+			}
+			d := kk
+			if rem := len(bytes) - pos; d > rem {
+				d = rem
+			}
+			copy(w[got:], bytes[pos:pos+d])
+			pos += d
+			got += d
+			if got < 4 && (r.err || d < kk) {
+				return 0, 0, false
+			}
+			if got < 4 && d == 0 && len(plan) == 0 && pos >= len(bytes) {
+				return 0, 0, false
+			}
+		}
+		v := uint64(w[0])<<24 | uint64(w[1])<<16 | uint64(w[2])<<8 | uint64(w[3])
+		if n&(n-1) == 0 {
+			return v & (n - 1), pos, true
+		}
+		limit := (uint64(1)<<32 - 1) - (uint64(1)<<32-1)%n
+		if v < limit {
+			return v % n, pos, true
+		}
+	}
+	return 0, 0, false
 }
 
 func readerFor(a opArgs) *scripted {
@@ -472,7 +553,7 @@ func applySep(r *spg.WLRecipe, s string) {
 	}
 }
 
-func (e *executor) exec(line, lean string) string {
+func (e *executor) exec1(line, lean string) string {
 	op, a := parseLine(line)
 	st.Ops[op]++
 	switch op {
@@ -527,7 +608,13 @@ func (e *executor) exec(line, lean string) string {
 			return panicLine(ro.panicMsg)
 		}
 		branch("source:ok")
-		return fmt.Sprintf("ok k=%d bytesused=%d", k, s.pos)
+		l := fmt.Sprintf("ok k=%d bytesused=%d", k, s.pos)
+		// independent reading of what a bounded draw over this reader must be: every raw word is
+		// four bytes read in full (however the reader chunks them), rejected words are replaced
+		if wk, wused, ok := sourceSpec(n, decHex(a["bytes"]), planOf(a["plan"])); ok && (uint64(k) != wk || s.pos != wused) {
+			l += fmt.Sprintf(" SOURCE-FAIL(expected-k=%d,expected-bytes=%d)", wk, wused)
+		}
+		return l
 
 	case "charinfo":
 		defer setCfg(a)()
@@ -655,7 +742,46 @@ func (e *executor) exec(line, lean string) string {
 		if !ro.panicked {
 			oracle = charOracle(spec, decWords(a["tape"]), p, ro.used, spg.MaxTrials)
 		}
+		if _, chunked := a["chunk"]; !chunked && a["extra"] == "" {
+			oracle += attemptsOracle(spec, decWords(a["tape"]), err, ro.used, spg.MaxTrials)
+		}
 		return genLine("chargen", lean, p, err, ro, warn, unk, 3, secretsOf(p, nil)) + oracle + after()
+
+	case "newcr":
+		// what NewCharRecipe hands out, and then the caller customises its recipe as the
+		// documentation invites — which must not affect the next one handed out
+		r := spg.NewCharRecipe(a.int("L"))
+		capt.take()
+		if r == nil {
+			return "nil"
+		}
+		l := fmt.Sprintf("L=%d allow=%d require=%d exclude=%d ac=%s rs=%d ec=%s", r.Length, uint32(r.Allow), uint32(r.Require),
+			uint32(r.Exclude), encCps(r.AllowChars), len(r.RequireSets), encCps(r.ExcludeChars))
+		// documented: everything allowed (upper, lower, digits, symbols = 1|2|4|8), the ambiguous (16) excluded
+		if r.Length != a.int("L") || uint32(r.Allow) != 15 || r.Require != 0 || uint32(r.Exclude) != 16 || r.AllowChars != "" ||
+			len(r.RequireSets) != 0 || r.ExcludeChars != "" {
+			l += " DEFAULTS-FAIL"
+		}
+		r.Length, r.Allow, r.Require, r.Exclude = 99, spg.Digits, spg.Digits, spg.None
+		r.AllowChars, r.ExcludeChars, r.RequireSets = "é", "xyz", []string{"q"}
+		return l
+	case "newwl":
+		wl, _ := spg.NewWordList([]string{"one", "two"})
+		r := spg.NewWLRecipe(a.int("L"), wl)
+		capt.take()
+		if r == nil {
+			return "nil"
+		}
+		sf := "nil"
+		if r.SeparatorFunc != nil {
+			sf = "set"
+		}
+		l := fmt.Sprintf("L=%d sepchar=%s sf=%s cap=%s", r.Length, encCps(r.SeparatorChar), sf, string(r.Capitalize))
+		if r.Length != a.int("L") || r.SeparatorChar != "" || r.SeparatorFunc != nil || string(r.Capitalize) != "none" {
+			l += " DEFAULTS-FAIL"
+		}
+		r.Length, r.SeparatorChar, r.SeparatorFunc, r.Capitalize = 99, "#", spg.SFDigits1, spg.CSAll
+		return l
 
 	case "wlnew":
 		words := wordsArg(a)
@@ -798,6 +924,11 @@ func (e *executor) exec(line, lean string) string {
 			if p2 == nil || showTokens(p2.Tokens()) != showTokens(p.Tokens()) {
 				so += " NONDETERMINISTIC"
 			}
+		}
+		// statistical check of the capitalisation choices over many positions (C04, C01)
+		if a["stat"] == "1" && !ro.panicked && err == nil && p != nil && wl != nil {
+			so += statCaps(r, readBack(wl), a.int("L"), decCps(a["cap"]), a["words"]+a["cap"]+a["L"])
+			capt.take()
 		}
 		return genLine("wlgen", lean, p, err, ro, warn, unk, 8, secretsOf(p, listWords)) + so + mut + after()
 
